@@ -320,6 +320,15 @@ class Scenario:
             parts = name.split(":")
             origin = {"a": "origin-a.example.org", "b": "origin-b.example.org"}[parts[1]]
             d = env.acr(host=origin, hbh=hbh, e2e=0x7000 + int(parts[3]), flags=R | P | (T if parts[2] == "1" else 0))
+        elif name.startswith("rh:"):
+            # rh:<hop-by-hop id from a pool>  - the end-to-end id stays unique so that frames can be attributed.
+            # Hop-by-hop ids of in-flight requests are connection-unique: not enabled while one with this id is unanswered here.
+            hb = 0x4000 + int(name[3:])
+            answered = {(f.h.hbh, f.h.e2e) for f in s.out if not f.h.is_request}
+            if any(f.h.hbh == hb and (f.h.hbh, f.h.e2e) not in answered for f in s.inreq):
+                s.nreq -= 1
+                return None
+            d = env.acr(host=host, hbh=hb, e2e=e2e)
         elif name == "req_auth":
             d = env.ccr(host=host, hbh=hbh, e2e=e2e)
         elif name == "req_acct":
@@ -415,7 +424,7 @@ class Scenario:
                           age(p.last_disconnect)))
         socks = tuple((s.kind, s.fs.closed, s.env_closed, s.cer_sent, s.cea_sent, s.host, len(s.fs.rbuf), s.fs.connecting and not s.fs.conn_done,
                        tuple(sorted(s.answered_out))) for s in self.socks)
-        waiting = tuple(sorted((h, tuple(sorted(m))) for h, m in getattr(node, "_peer_waiting_answer", {}).items()))
+        waiting = tuple(sorted((tuple(sorted(map(repr, m))),) for h, m in getattr(node, "_peer_waiting_answer", {}).items() if m))
         appw = tuple(sorted(getattr(node, "_app_waiting_answer", {})))
         sent = tuple(sorted((h, tuple(d)) for h, d in getattr(node, "_sent_answers", {}).items()))
         apps = tuple((a.is_ready.is_set(), tuple(sorted(getattr(a, "_answer_waiting", {})))) for a in nw.apps)
